@@ -366,7 +366,7 @@ class Flattener:
                         return None, None
                 elif not isinstance(recv, ast.Name):
                     return None, None
-        if g is None or g.name in KNOWN_FUNCTIONS or g.name.startswith("__"):
+        if g is None or g.name in KNOWN_FUNCTIONS or (g.name.startswith("__") and g.name.endswith("__")):
             return None, None
         return g, recv
 
@@ -413,7 +413,8 @@ class Flattener:
             if g.is_classmethod:
                 if recv is None:
                     raise CannotInline("classmethod receiver")
-                bound[selfp] = ast.copy_location(ast.Attribute(value=_clone(recv), attr="__class__", ctx=ast.Load()), call) if not (isinstance(recv, ast.Name) and recv.id in self.m.classes) else _clone(recv)
+                recv_is_class = isinstance(recv, ast.Name) and (recv.id in self.m.classes or (fn.is_classmethod and fn.params and recv.id == fn.params[0]))
+                bound[selfp] = ast.copy_location(ast.Attribute(value=_clone(recv), attr="__class__", ctx=ast.Load()), call) if not recv_is_class else _clone(recv)
             else:
                 if recv is None:
                     raise CannotInline("unbound method call")
